@@ -125,13 +125,7 @@ func run(rt *rapid.T) {
 		}
 	}
 	before := keysOf(db)
-	// an empty batch may also be "committed" by not calling Commit at all (nothing changed since the checkpoint)
-	noCommit := !m.Dirty && gen.Chance(rt, 50, "nocommit")
-	if noCommit {
-		m.Logf("(no commit: nothing changed)")
-	} else {
-		m.Commit(gen.Pick(rt, []int{0, 0, 1, 2, 3, 64}, "clevel"))
-	}
+	m.Commit(gen.Pick(rt, []int{0, 0, 1, 2, 3, 64}, "clevel"))
 	after := keysOf(db)
 	var created []string
 	for k := range after {
@@ -139,7 +133,7 @@ func run(rt *rapid.T) {
 			created = append(created, k)
 		}
 	}
-	gcBetween := !noCommit && gen.Chance(rt, 50, "gcbetween")
+	gcBetween := gen.Chance(rt, 50, "gcbetween")
 	if gcBetween {
 		m.GC()
 	}
@@ -210,7 +204,6 @@ func run(rt *rapid.T) {
 	add(recreated > 0, "re-created-checkpoint-node")
 	add(cpWeight == 0, "empty-checkpoint")
 	add(len(kinds) == 0, "empty-batch")
-	add(noCommit, "rollback-without-a-commit-call")
 	add(len(created) > 0, "created-new-nodes")
 	_ = cpNodes
 	ev.Case(m.History(), nt, cls...)
